@@ -2229,6 +2229,11 @@ func ConcreteNextHopProto(e *aft.Afts_NextHop) (*aftpb.Afts_NextHopKey, error) {
 	}, nhproto); err != nil {
 		return nil, fmt.Errorf("cannot marshal next-hop index %d, %v", e.GetIndex(), err)
 	}
+	if e.PopTopLabel != nil {
+		// Boolean leaves are not populated when mapping the paths back to the
+		// protobuf, so set the value explicitly.
+		nhproto.PopTopLabel = &wpb.BoolValue{Value: *e.PopTopLabel}
+	}
 	return &aftpb.Afts_NextHopKey{
 		Index:   *e.Index,
 		NextHop: nhproto,
